@@ -67,7 +67,7 @@ def min_residual(T, Hm, Q, s, m, n, dt):
     return (Q[:, :mm] @ y).reshape(-1)
 
 
-def case_gmres(T, n, max_iters, variant=0, complex_=False, symbolic_upper=False, x0mode="none", cols="one", tol=1e-7, zero_at=None, via="function"):
+def case_gmres(T, n, max_iters, variant=0, complex_=False, symbolic_upper=False, x0mode="none", cols="one", tol=1e-7, zero_at=None, via="function", tri=False):
     dt = 'complex128' if complex_ else 'float64'
     Q = K.basis(T, n, variant, complex_, dt)
     Hm = K.mat(T, _H(T, n, variant, complex_, symbolic_upper, zero_at), dt)
@@ -107,7 +107,7 @@ def case_gmres(T, n, max_iters, variant=0, complex_=False, symbolic_upper=False,
     cnt = Counter()
     Aop = counting(cola.ops.Dense(A), cnt, set())
     if via == "function":
-        X, info = gmres(Aop, B, x0=X0, max_iters=max_iters, tol=tolv)
+        X, info = gmres(Aop, B, x0=X0, max_iters=max_iters, tol=tolv, **(dict(use_triangular=True) if tri else {}))
     else:
         Ainv = cola.linalg.inv(Aop, cola.linalg.GMRES(x0=X0, max_iters=max_iters, tol=tolv))
         X = Ainv @ B
@@ -219,6 +219,14 @@ def cases(tier, seed):
         out.append((f"symtol:n{n}", case_gmres, dict(n=n, max_iters=n, tol="sym")))
         for z in range(0, n - 1):
             out.append((f"breakdown:n{n}z{z}", case_gmres, dict(n=n, max_iters=n, zero_at=z, variant=-1)))
+    # the Givens-rotation variant of the small least-squares problem (use_triangular=True; the library documents it for one right-hand side)
+    for m in (1, 2):
+        out.append((f"tri-sym2:m{m}", case_gmres, dict(n=2, max_iters=m, symbolic_upper=True, tri=True)))
+    for n in sizes:
+        for m in range(1, n + 1):
+            out.append((f"tri:n{n}m{m}", case_gmres, dict(n=n, max_iters=m, tri=True)))
+        out.append((f"tri-x0:n{n}m{n - 1}", case_gmres, dict(n=n, max_iters=n - 1, tri=True, x0mode="sym")))
+        out.append((f"tri-complex:n{n}m{n - 1}", case_gmres, dict(n=n, max_iters=n - 1, tri=True, complex_=True)))
     for (n1, n2, m) in ((1, 2, 2), (1, 2, 3), (2, 1, 3), (1, 3, 4)):
         out.append((f"blocks:{n1}+{n2}m{m}", case_blocks, dict(n1=n1, n2=n2, max_iters=m)))
     out.append(("blocks-scaled:1+2m3", case_blocks, dict(n1=1, n2=2, max_iters=3, scaled=True)))
